@@ -116,7 +116,7 @@ impl Scenario for WalletScenario {
             ch.open("op");
             let tip = s.chain.tip();
             let base = s.cfg.base_height;
-            let k = ch.weighted("op", &[26, 16, 18, 10, 8, 5, 7, if faults_on { 10 } else { 0 }, 6, 4]);
+            let k = ch.weighted("op", &[26, 16, 18, 10, 8, 5, 7, if faults_on { 10 } else { 0 }, 6, 4, if self.prop == "C01" { 8 } else { 2 }]);
             match k {
                 // honest client step
                 0 => {
@@ -273,6 +273,34 @@ impl Scenario for WalletScenario {
                                     Err(e) => ctx.event(format!("queue_rescans({a}..{b}, {prio:?}) refused: {e}")),
                                 }
                             }
+                        }
+                    }
+                }
+                // the client reports a transparent coin (a new one, or one a rewind un-mined that is still on the chain)
+                10 => {
+                    if s.dirty_fork.is_none() && tip > base {
+                        ctx.op("put_utxo");
+                        let redo: Vec<usize> = s.t_coins.iter().enumerate().filter(|(_, c)| c.on_chain && c.state != TState::Mined).map(|(i, _)| i).collect();
+                        let which = if !redo.is_empty() && ch.chance("rediscover", 1, 2) {
+                            Ok(redo[ch.idx("which", redo.len())])
+                        } else {
+                            let told = s.tip_told.unwrap_or(tip).min(tip);
+                            let maxs = s.scanned.iter().next_back().copied().unwrap_or(base);
+                            // in a scanned block, above everything scanned, or anywhere up to the tip the wallet knows
+                            let h = match ch.below("h.kind", 3) {
+                                0 => base + 1 + ch.below("h", (told.max(base + 1) - base) as u64) as u32,
+                                1 => (maxs + 1 + ch.below("above", 5) as u32).min(told.max(base + 1)),
+                                _ => maxs.max(base + 1),
+                            };
+                            let value = *ch.pick("value", &[100_000u64, 5_000, 1, 2_000_000, 30_000]);
+                            Err((ch.idx("acct", s.accounts.len()), value, h, ch.u64("salt")))
+                        };
+                        match s.put_utxo(which, ctx)? {
+                            Ok(()) => {
+                                let c = s.t_coins.last().unwrap();
+                                ctx.event(format!("transparent coin reported ({} coins known; last {}@{})", s.t_coins.len(), c.value, c.height));
+                            }
+                            Err(e) => ctx.event(format!("put_received_transparent_utxo refused: {e}")),
                         }
                     }
                 }
